@@ -23,6 +23,11 @@ NA = {
 PENDING_REASON = "check under construction in this session (engine designed in DESIGN.md section 4, not yet registered)"
 
 CHECKS = {
+ "C17": dict(engine="detsim", category="exploration", design_ref="4.5",
+   text="every run is a fresh worker interpreter whose PYTHONHASHSEED, wall clock / user / host (as read by fcp_cpp), directory listing order and operation history (parse, broken parse through the default Logger, verify with plug-in checks, layout on a kept encoder, reflection encode, earlier generations, fresh or reused tree objects) are chosen by the seeded simulator; every generate of every generator is compared file-by-file (stamp line removed) with the pristine baseline of the same schema; sampling over seeds, histories and a per-batch schema pool",
+   note="generators are called through Generator.generate; the stamp line removed is exactly the documented one; trusts sha-256 comparison of normalised contents",
+   technique="deterministic simulation with ambient-nondeterminism injection (hash seed, clock, uid/host, listing order, process history) and a pristine-run oracle",
+   kind="deterministic simulation: fresh interpreters with simulator-owned hash seed / clock / user / host / listing order / history, pristine baseline oracle"),
  "C10": dict(engine="gensim", category="exploration", design_ref="4.2",
    text="seeded command histories (gen via CLI or API with fresh or reused manager, touch, rm) against one scratch output directory with seeded pre-states; schemas carry zero or one injected check failure at a seeded position (root file or imported module); every gen is judged against an independent evaluation of every registered check: rejected => Err/diagnostic, plug-in never called, directory snapshot identical and no mutating file-system call under it (audit hook); accepted => exactly the returned files with exactly the returned contents; a share of runs injects ENOSPC/EIO/EACCES on the k-th mutating event; sampling, not proof",
    note="the reference verdict calls the registered check functions directly (the checks themselves are C09's); raising checks / plug-ins are counted, not judged; trusts the audit hook and content snapshots as observers; the wall clock / user / host read by fcp_cpp are simulated",
